@@ -215,7 +215,8 @@ Theorem any_qc_sound c st bq ag pick :
      exists h, pick (verify_aggqc c st a) = Ok h /\ qc_equals bq h = true).
 Proof.
   unfold verify_any_qc_with. destruct (c_aggqc c); [destruct ag as [a|]|]; cbn.
-  - destruct (pick (verify_aggqc c st a)) as [h| |] eqn:E; try discriminate.
+  - destruct (aq_sig a); [|discriminate].
+    destruct (pick (verify_aggqc c st a)) as [h| |] eqn:E; try discriminate.
     destruct (qc_equals bq h) eqn:Eq; cbn [negb]; [|discriminate].
     intros H. split; [assumption|]. intros _ a' Ha. inversion Ha; subst. now exists h.
   - intros H. split; [assumption|]. intros _ a' Ha. discriminate.
